@@ -27,7 +27,16 @@ PROP = dict(
     level_note=('trusts the reference bit vector (most significant bit of a '
                 'word first, as the default uint64_t instantiation behaves and '
                 'the header comment "we write in order" says), the harness '
-                'decoders and the compilers; word/value type pairs of unequal '
+                'decoders and the compilers; the word model and the re-read as '
+                'two narrower fields are only applied while a probe of the '
+                'instantiation under test shows that documented bit order '
+                '(class <type>.layout.documented) - the property does not fix '
+                'which bit of a word a stream bit is kept in, so with any other '
+                'order (class <type>.layout.other) the same cases are judged '
+                'through the API alone: words that do not overlap the range '
+                'byte-identical, the bits before and after the range inside '
+                'the overlapping words unchanged as read by '
+                'varintBitstreamGet, read-back of the range; word/value type pairs of unequal '
                 'width are not instantiated; on the sparse stream a stray '
                 'store is seen only inside the watched windows or (scanned '
                 'cases) when it leaves a non-zero word; offsets beyond 2^33 + '
